@@ -69,7 +69,7 @@ let redirs_str rd =
 let cmd_str c =
   "C(tokens=" ^ show_toks c.c_tokens ^ ",redirs=" ^ redirs_str c.c_redirs ^ ",from=" ^
   (match c.c_from with None -> "None" | Some (t, v) -> "(" ^ q t ^ "," ^ q v ^ ")") ^ ")"
-let perr = function PRedir e -> "E(" ^ rerr e ^ ")" | PFuel -> "E(FUEL)"
+let perr = function PRedir e -> "E(" ^ rerr e ^ ")" | PFuel -> "E(FUEL)" | PEmpty -> "E(EEmpty)"
 
 (* HashMap semantics for envs: last binding wins; printed sorted by name *)
 let envs_str envs =
